@@ -291,7 +291,8 @@ class Check:
             cmd.append("--init=" + init)
         cmd.append(module + ".tla")
         t0 = time.time()
-        r = subprocess.run(cmd, cwd=os.path.join(SPEC, "apalache"), stdout=subprocess.PIPE, stderr=subprocess.STDOUT, text=True)
+        r = subprocess.run(cmd, cwd=os.path.join(SPEC, "apalache"), stdout=subprocess.PIPE, stderr=subprocess.STDOUT, text=True,
+                           env=dict(os.environ, JVM_ARGS="-Xss512m"))
         out = r.stdout
         if "EXITCODE: OK" in out:
             res = "no error"
